@@ -39,6 +39,8 @@ def gen(c):
     spec.update(root_chord=float(np.round(max(spec["root_chord"], spec["span"] / 9.0), 3)), taper=max(spec["taper"], 0.5), camber=0.0)
     s = dict(name="wing", symmetry=symc, mesh=spec, with_viscous=True, with_wave=bool(rng.integers(2)), twist_cp=[1.0, 2.0], t_over_c_cp=[0.12, 0.1],
              chord_cp=[1.0, 0.9], sweep=float(np.round(rng.uniform(0, 20), 1)))
+    # laminar fraction at the ends of its range (fully turbulent / fully laminar branches of the viscous-drag derivatives) and inside it
+    s["k_lam"] = float(np.random.default_rng(c["seed"] + 11).choice([0.0, 0.05, 1.0, 0.4]))
     pts = []
     if model == "aero":
         mode = str(rng.choice(["plain", "compressible", "ground", "two"]))
